@@ -116,7 +116,9 @@ Definition c01_check (k : c01_case) : bool * bool :=
         && Bool.eqb (oii || owi || oww) (dom && ovl),
         (* outside the property's domain (zero-width characters, a wide character in the
            last column, empty images) only the agreement of model and code is checked *)
-        negb dom || spec_run o h w (blank_screen h w) (gmake h w cell_default) ops impl )
+        (negb dom || spec_run o h w (blank_screen h w) (gmake h w cell_default) ops impl)
+        (* and, whatever is drawn: a frame that repeats the previous one issues nothing (C01_idle_frame) *)
+        && idle_ok o h w (Some (gmake h w cell_default)) (gmake h w cell_default) ops impl )
   | Forced hN wN widths isizes fsp fer ers g foreign s impl good =>
       let h := N.to_nat hN in
       let w := N.to_nat wN in
